@@ -169,7 +169,29 @@ class loader_order:
         out.append(dict(languages=["en-XX"], use_given_order=False, kind="locales"))
         out.append(dict(languages=["en-GB", "en-US"], use_given_order=False, kind="locales"))
         out.append(dict(languages=["en", "fr"], use_given_order=False, kind="region-CA"))
+        # the whole priority order at once: every language (script-qualified ones such as zh-Hant,
+        # sr-Latn, pa-Arab included) requested in reverse; one regional locale per language likewise
+        out.append(dict(languages="ALL-REVERSED", use_given_order=False, kind="languages"))
+        out.append(dict(languages="ALL-REVERSED", use_given_order=True, kind="languages"))
+        out.append(dict(languages="ONE-LOCALE-EACH-REVERSED", use_given_order=False, kind="locales"))
+        for pair in (["zh-Hant", "nl"], ["sr-Latn", "lt"], ["yue", "zh-Hant"], ["ps", "pa-Arab"],
+                     ["uz-Cyrl", "uz", "uz-Arab"], ["sr-Cyrl", "sr", "sr-Latn"]):
+            out.append(dict(languages=pair, use_given_order=False, kind="languages"))
+        out.append(dict(languages=["zh-Hant-HK", "nl-BE", "zh-Hans-SG"], use_given_order=False,
+                        kind="locales"))
         return out
+
+    @staticmethod
+    def _requested(case):
+        from dateparser.data import language_locale_dict, language_order
+
+        langs = case["languages"]
+        if langs == "ALL-REVERSED":
+            return list(reversed(language_order))
+        if langs == "ONE-LOCALE-EACH-REVERSED":
+            return [language_locale_dict[l][len(language_locale_dict[l]) // 2]
+                    for l in reversed(language_order) if language_locale_dict.get(l)]
+        return list(langs)
 
     @staticmethod
     def setup(inp, case):
@@ -177,14 +199,14 @@ class loader_order:
 
         def run():
             ld = LocaleDataLoader()
+            req = loader_order._requested(case)
             if case["kind"] == "languages":
                 return [l.shortname for l in ld.get_locales(
-                    languages=case["languages"], use_given_order=case["use_given_order"])]
+                    languages=req, use_given_order=case["use_given_order"])]
             if case["kind"] == "region-CA":
-                return [l.shortname for l in ld.get_locales(languages=case["languages"],
-                                                            region="CA")]
+                return [l.shortname for l in ld.get_locales(languages=req, region="CA")]
             return [l.shortname for l in ld.get_locales(
-                locales=case["languages"], use_given_order=case["use_given_order"])]
+                locales=req, use_given_order=case["use_given_order"])]
 
         return run, (), {}, {}
 
@@ -192,8 +214,14 @@ class loader_order:
     def post(case, g, out):
         from dateparser.data import language_order
 
-        langs = case["languages"]
-        bad = any(l.split("-")[0] not in language_order for l in langs) or "en-XX" in langs \
+        import re
+
+        def language_of(code):
+            # a locale code is <language>-<REGION>; the language itself may carry a script subtag
+            return re.split(r"-(?=[A-Z0-9]+$)", code)[0]
+
+        langs = loader_order._requested(case)
+        bad = any(language_of(l) not in language_order for l in langs) or "en-XX" in langs \
             or langs == ["en-GB", "en-US"]
         if bad:
             return {"unknown-or-conflicting=>ValueError": out.raised(ValueError)}
@@ -204,7 +232,7 @@ class loader_order:
                     out.value == ["en-CA", "fr-CA"]}
         want = list(langs)
         if not case["use_given_order"]:
-            want = sorted(want, key=lambda x: language_order.index(x.split("-")[0]))
+            want = sorted(want, key=lambda x: language_order.index(language_of(x)))
         return {"no-exception": True, "exactly-the-requested-in-order": out.value == want}
 
 
